@@ -49,6 +49,31 @@ def one(F):
     return Param("const", np.ones(F, dtype=complex), 1)
 
 
+def offgrid_vector(rng, freqs, mag=1.0):
+    """vector parameter given on its OWN frequency grid (3..7 knots covering
+    the calibration band with margin) whose values follow a first-order
+    rational law in frequency, which the library's rational-function
+    interpolation reproduces; .values holds the law at the calibration
+    frequencies (the truth the measurements are generated from)"""
+    lo, hi = float(freqs[0]), float(freqs[-1])
+    span = max(hi - lo, 0.1 * hi)
+    k = int(rng.integers(3, 8))
+    pf = np.linspace(lo - 0.15 * span, hi + 0.15 * span, k)
+    pf = pf + rng.uniform(-0.02, 0.02, k) * span / k
+    pf = np.maximum(pf, 1.0)
+    a = (rng.standard_normal() + 1j * rng.standard_normal()) * 0.6 * mag
+    b = (rng.standard_normal() + 1j * rng.standard_normal()) * 0.3 * mag
+    c = rng.uniform(-0.3, 0.3) + 0.2j * rng.uniform(-1, 1)
+
+    def law(f):
+        x = (np.asarray(f, dtype=float) - lo) / span
+        return (a + b * x) / (1.0 + c * x)
+    prm = Param("vector", law(freqs).astype(complex))
+    prm.pfreqs = pf
+    prm.pvalues = law(pf).astype(complex)
+    return prm
+
+
 def rand_param(rng, F, mag=1.0, allow_const=True):
     k = rng.integers(0, 6)
     if allow_const and k < 2:
@@ -84,12 +109,16 @@ class Std:
         return physics.embed(p, self.ports, self.S_std(f), self.term[f])
 
     def S_known(self, f, p):
-        """p x p with NaN on unconnected diagonal entries"""
+        """p x p with NaN in every cell between two unconnected ports: the
+        library documents that it assumes nothing about them except that
+        they have no path through the standard to the connected ports, so a
+        cell between two unconnected ports is not a leakage observation"""
         S = self.S_full(f, p)
         conn = {q - 1 for q in self.ports}
         for q in range(p):
-            if q not in conn:
-                S[q, q] = np.nan
+            for q2 in range(p):
+                if q not in conn and q2 not in conn:
+                    S[q, q2] = np.nan
         return S
 
     def is_diag(self):
@@ -177,12 +206,19 @@ class Scenario:
     # ------------------------------------------------------------------
     # standard recipes
     # ------------------------------------------------------------------
+    def rparam(self, mag=1.0, allow_const=True):
+        """random parameter; with self.offgrid, some are vectors on their own
+        frequency grid"""
+        if getattr(self, "offgrid", False) and self.rng.random() < 0.3:
+            return offgrid_vector(self.rng, self.freqs, mag)
+        return rand_param(self.rng, self.F, mag, allow_const)
+
     def add_reflect(self, ports, params=None):
         F, rng = self.F, self.rng
         n = len(ports)
         sp = [[zero(F) for _ in range(n)] for _ in range(n)]
         for a in range(n):
-            sp[a][a] = params[a] if params else rand_param(rng, F)
+            sp[a][a] = params[a] if params else self.rparam()
         s = Std(ports, sp, F, rng, self.p)
         self.stds.append(s)
         return s
@@ -196,10 +232,8 @@ class Scenario:
 
     def add_line(self, p1, p2):
         F, rng = self.F, self.rng
-        sp = [[rand_param(rng, F, 0.3, allow_const=False),
-               rand_param(rng, F, 1.0, allow_const=False)],
-              [rand_param(rng, F, 1.0, allow_const=False),
-               rand_param(rng, F, 0.3, allow_const=False)]]
+        sp = [[self.rparam(0.3, False), self.rparam(1.0, False)],
+              [self.rparam(1.0, False), self.rparam(0.3, False)]]
         s = Std([p1, p2], sp, F, rng, self.p)
         self.stds.append(s)
         return s
@@ -207,8 +241,32 @@ class Scenario:
     def add_matrix(self, ports):
         F, rng = self.F, self.rng
         n = len(ports)
-        sp = [[rand_param(rng, F, 0.8, allow_const=False) for _ in range(n)]
+        sp = [[self.rparam(0.8, False) for _ in range(n)]
               for _ in range(n)]
+        s = Std(ports, sp, F, rng, self.p)
+        self.stds.append(s)
+        return s
+
+    def add_sparse_matrix(self, ports):
+        """multi-port standard whose non-zero off-diagonal cells form a
+        connected but non-clique graph (a random spanning tree, sometimes
+        non-reciprocal): ports are then connected only transitively"""
+        F, rng = self.F, self.rng
+        n = len(ports)
+        sp = [[zero(F) for _ in range(n)] for _ in range(n)]
+        for a in range(n):
+            sp[a][a] = self.rparam(0.5)
+        order = list(rng.permutation(n))
+        for i in range(1, n):
+            a, b = int(order[i]), int(order[int(rng.integers(0, i))])
+            sp[a][b] = self.rparam(0.9, False)
+            # non-reciprocal trees only where the caller asks for them
+            # (pre_sparse): a one-way edge makes some of the cells the
+            # library counts as equations trivially 0 = 0, so the prefix has
+            # "enough equations" by the library's count without determining
+            # the terms -- the case C20 explicitly claims nothing about
+            if rng.random() < 0.7 or not getattr(self, "pre_sparse", 0):
+                sp[b][a] = self.rparam(0.9, False)
         s = Std(ports, sp, F, rng, self.p)
         self.stds.append(s)
         return s
@@ -224,13 +282,13 @@ class Scenario:
                 vals = [Param("const", np.full(F, CONST[k], dtype=complex), k)
                         for k in rng.permutation(3)]
             else:
-                vals = [rand_param(rng, F, allow_const=False) for _ in range(3)]
+                vals = [self.rparam(1.0, False) for _ in range(3)]
             for v in vals:
                 others = [o for o in ports if o != q]
                 if others and rng.random() < 0.4:
                     o = int(rng.choice(others))
                     pair = [q, o] if rng.random() < 0.5 else [o, q]
-                    pr = [v, rand_param(rng, F)]
+                    pr = [v, self.rparam()]
                     if pair[0] != q:
                         pr = pr[::-1]
                     self.add_reflect(pair, pr)
@@ -264,6 +322,12 @@ class Scenario:
             for (a, b) in pairs:
                 for _ in range(2):
                     self.add_reflect([a, b])
+        nsparse = getattr(self, "pre_sparse", 0) or \
+            (1 if (p >= 3 and rng.random() < 0.5) else 0)
+        for _ in range(nsparse if p >= 3 else 0):
+            n = int(rng.integers(3, p + 1)) if nsparse == 1 else p
+            self.add_sparse_matrix([int(x) for x in
+                                    rng.choice(ports, n, replace=False)])
         for _ in range(extras):
             k = rng.integers(0, 3)
             if k == 0 or p == 1:
@@ -383,6 +447,11 @@ class Scenario:
         elif prm.kind == "scalar":
             s.op("%s=vnacal_make_scalar_parameter $%s %s" % (
                 name, vc, cx(prm.values[0])))
+        elif getattr(prm, "pfreqs", None) is not None:
+            s.rvec("f_" + name, prm.pfreqs)
+            s.cvec("g_" + name, prm.pvalues)
+            s.op("%s=vnacal_make_vector_parameter $%s @f_%s %d @g_%s" % (
+                name, vc, name, len(prm.pfreqs), name))
         else:
             s.cvec("g_" + name, prm.values)
             s.op("%s=vnacal_make_vector_parameter $%s @freq %d @g_%s" % (
